@@ -427,3 +427,33 @@ Example brandes_nonvacuous :
   shortest_paths (pattern g) 0 4 3 = [[0; 1; 3; 4]; [0; 2; 3; 4]] /\
   rows_ok (pattern h) = true /\ is_symmetric h = true /\ betweenness h = [1 # 2; 1 # 2; 1 # 2; 1 # 2]%Q.
 Proof. cbv zeta. repeat split; vm_compute; reflexivity. Qed.
+
+(* =========================================================================================== *)
+(** * The random-surfer operator as REGENERATED FROM sknetwork/linalg/ppr_solver.py
+
+    [src_rso_matvec] (Gen/NpRso.v) is RandomSurferOperator(adjacency, seeds, damping_factor)._matvec(x) — constructor and
+    method composed, sparse-matrix branch — translated on every run by harness/translators/npvec.py into the array
+    language of Model/NpVec.v; it is the operator that the piteration, lanczos and bicgstab solvers of get_pagerank share.
+    Over R, for EVERY non-negative adjacency matrix (index function), restart distribution summing to 1, damping factor and
+    vector: the operator preserves the total mass, and a fixed point of mass 1 solves x = a P'^T x + (1 - a) y where a node
+    without out-links restarts from y (uniqueness of that solution is the theorem pagerank_solution_unique above). *)
+From SKN Require Import Model.NpExpr Model.NpVec Gen.NpRso Proofs.NpVecProofs Proofs.NpRsoProofs.
+From Coq Require Import Reals Lra.
+Local Open Scope R_scope.
+
+Theorem source_rso_mass_and_fixed_point (n : nat) (A : nat -> nat -> R) (s : nat -> R) (alpha : R) (x : nat -> R) :
+  nonneg_mat n A -> rsum n s = 1 ->
+  exists f, rvdenote (env_rso n A s x alpha) src_rso_matvec = Some (WV n f) /\
+    rsum n f = rsum n x /\
+    ((forall i, (i < n)%nat -> f i = x i) -> rsum n x = 1 ->
+     forall i, (i < n)%nat -> x i = alpha * rsum n (fun j => patched n A s j i * x j) + (1 - alpha) * s i).
+Proof. exact (NpRsoProofs.source_rso_mass_and_fixed_point n A s alpha x). Qed.
+Print Assumptions source_rso_mass_and_fixed_point.
+
+Example c04_nonvacuous_source :
+  nonneg_mat 2 (fun i j => if Nat.eqb i 0 then (if Nat.eqb j 1 then 3 else 0) else 0) /\ rsum 2 (fun i => if Nat.eqb i 0 then 1 else 0) = 1.
+Proof.
+  split.
+  - intros i j _ _. destruct (Nat.eqb i 0); [destruct (Nat.eqb j 1)|]; lra.
+  - unfold rsum, vsum, Gnn.g_sum. cbn. lra.
+Qed.
